@@ -101,7 +101,12 @@ impl Statement {
                 // TODO: Handle array values.
                 if !matches!(rhe, Update { .. }) {
                     if let Some(value) = rhe.value() {
-                        env.add_variable(var, value);
+                        // Only SSA variables are assigned exactly once. Signals and
+                        // components are not versioned and may be assigned different
+                        // values in different branches, so their values are not tracked.
+                        if var.version().is_some() {
+                            env.add_variable(var, value);
+                        }
                         result = result || meta.value_knowledge_mut().set_reduces_to(value.clone());
                     }
                 }
